@@ -1,13 +1,33 @@
+import GeomV.C09.Lemmas
 import GeomV.C09.Gen.Tables
 import GeomV.C09.Gen.GoCommon
 import GeomV.C09.Model
 import GeomV.C09.Js
 import GeomV.C09.Spec
+import Mathlib.Analysis.Real.Pi.Bounds
 /-!
-Property theorems of C09 (part 1: the constant tables; the formula identities over ℝ are added below).
+Property theorems of C09.
+
+(C) tables: `C09_ellipsoids`, `C09_datums`, `C09_primeMeridians`, `C09_units` — the Go table equals
+    the proj4js table, key for key, exact decimals; both sides are REGENERATED from the sources on
+    every run (`Gen/Tables.lean`), so the proof is about what the code says now.
+(A) formula identities over ℝ, for all arguments: `go_<f>_eq_js` — the Go side is the definition
+    REGENERATED from `proj/common.go` with constants folded by go/types (`Gen/GoCommon.lean`), the JS
+    side is the transliteration of `lib/common/<f>.js`; `go_consts_eq_js` for the package constants;
+    projection level `go_<p>_fwd_eq_js` (hand models, tied by the correspondence run).
+(B) reference formulas: `snyder_*_eq` — the port's closed forms equal Snyder's textual forms.
+
+What is NOT here (numeric evidence instead): IEEE rounding, Go `math` vs libm, the truncation of the
+transverse Mercator series against Karney–Krüger, convergence of the iterative inverses.
 -/
+set_option linter.unusedSimpArgs false
+set_option linter.unusedTactic false
+set_option linter.unreachableTactic false
+set_option linter.unusedVariables false
 namespace GeomV.C09
 open GeomV.C09
+
+/-! ## (C) tables -/
 
 /-- clause (C), ellipsoids: the table of `proj/EllipsoidDef.go` equals `lib/constants/Ellipsoid.js`,
 key for key, every number as an exact decimal (both regenerated from the sources on every run). -/
@@ -21,5 +41,316 @@ theorem C09_primeMeridians : Gen.goPrimeMeridians = Gen.jsPrimeMeridians := by d
 
 /-- clause (C), units: `proj/units.go` = `lib/constants/units.js` (`1200/3937` kept as a fraction). -/
 theorem C09_units : Gen.goUnits = Gen.jsUnits := by decide
+
+/-- non-vacuity: the tables are not empty and carry the known rows -/
+example : Gen.goEllipsoids.length = 43 ∧ Gen.goDatums.length = 16 ∧ Gen.goPrimeMeridians.length = 13 ∧
+    lookupNum Gen.goUnits "us-ft" = some ⟨1200, 3937, 0⟩ := by decide
+
+/-! ## (A) the helpers of proj/common.go (T1-generated) against lib/common/*.js -/
+
+/-- `e0fn`, all x -/
+theorem go_e0fn_eq_js (x : ℝ) : Gen.Go.e0fn x = Js.e0fn x := by
+  unfold Gen.Go.e0fn Js.e0fn; rnum; first | done | (norm_num; try ring_nf) | ring
+/-- `e1fn`, all x -/
+theorem go_e1fn_eq_js (x : ℝ) : Gen.Go.e1fn x = Js.e1fn x := by
+  unfold Gen.Go.e1fn Js.e1fn; rnum; first | done | (norm_num; try ring_nf) | ring
+/-- `e2fn`, all x -/
+theorem go_e2fn_eq_js (x : ℝ) : Gen.Go.e2fn x = Js.e2fn x := by
+  unfold Gen.Go.e2fn Js.e2fn; rnum; first | done | (norm_num; try ring_nf) | ring
+/-- `e3fn`, all x: false on the snapshot (`35 / 3072` is the integer constant 0: the generated
+definition was `x*x*x*0`, witness x = 1); true since fix bb62cb1 -/
+theorem go_e3fn_eq_js (x : ℝ) : Gen.Go.e3fn x = Js.e3fn x := by
+  unfold Gen.Go.e3fn Js.e3fn; rnum; first | done | ring | (norm_num; try ring_nf)
+/-- the e3 coefficient is the Snyder value and not 0 (non-vacuity of the fix) -/
+theorem go_e3fn_one : Gen.Go.e3fn (1 : ℝ) = 35 / 3072 := by
+  unfold Gen.Go.e3fn; rnum; norm_num
+/-- `mlfn`, all arguments -/
+theorem go_mlfn_eq_js (e0 e1 e2 e3 phi : ℝ) : Gen.Go.mlfn e0 e1 e2 e3 phi = Js.mlfn e0 e1 e2 e3 phi := by
+  unfold Gen.Go.mlfn Js.mlfn; rnum; first | done | ring
+/-- `msfnz`, all arguments -/
+theorem go_msfnz_eq_js (e s c : ℝ) : Gen.Go.msfnz e s c = Js.msfnz e s c := by
+  unfold Gen.Go.msfnz Js.msfnz; rnum; first | done | ring_nf
+/-- `tsfnz`, all arguments -/
+theorem go_tsfnz_eq_js (e phi s : ℝ) : Gen.Go.tsfnz e phi s = Js.tsfnz e phi s := by
+  unfold Gen.Go.tsfnz Js.tsfnz Js.HALF_PI; rnum; first | done | (norm_num)
+/-- `qsfnz`, all arguments (both branches of the `eccent > 1e-7` test) -/
+theorem go_qsfnz_eq_js (e s : ℝ) : Gen.Go.qsfnz e s = Js.qsfnz e s := by
+  unfold Gen.Go.qsfnz Js.qsfnz; rnum; first | done | norm_num
+/-- `sign` -/
+theorem go_sign_eq_js (x : ℝ) : Gen.Go.sign x = Js.sign x := by
+  unfold Gen.Go.sign Js.sign; rnum; first | done | norm_num
+/-- `adjust_lon` (same `SPI = 3.14159265359`, same `2π`) -/
+theorem go_adjust_lon_eq_js (x : ℝ) : Gen.Go.adjust_lon x = Js.adjust_lon x := by
+  unfold Gen.Go.adjust_lon Js.adjust_lon Gen.Go.sign Js.sign Js.SPI Js.TWO_PI; rnum; first | done | norm_num
+/-- `adjust_lat` -/
+theorem go_adjust_lat_eq_js (x : ℝ) : Gen.Go.adjust_lat x = Js.adjust_lat x := by
+  unfold Gen.Go.adjust_lat Js.adjust_lat Gen.Go.sign Js.sign Js.HALF_PI; rnum; first | done | norm_num
+/-- `asinz` (clamping to [-1, 1] before `asin`) -/
+theorem go_asinz_eq_js (x : ℝ) : Gen.Go.asinz x = Js.asinz x := by
+  unfold Gen.Go.asinz Js.asinz; rnum
+  first | done | (by_cases h1 : 1 < |x| <;> by_cases h2 : 1 < x <;> simp [h1, h2])
+
+/-- how a Go `(float64, error)` result is read in the JS sentinel convention (`-9999`, `NaN`, `null`) -/
+def okOf {α : Type} : Except String α → Option α
+  | .ok v => some v
+  | .error _ => none
+
+theorem okOf_ite {α : Type} (c : Prop) [Decidable c] (a : α) (r : Except String α) :
+    okOf (if c then Except.ok a else r) = if c then some a else okOf r := by
+  split <;> rfl
+
+theorem go_phi2z_loop_eq_js (eccent ts eccnth : ℝ) (n : ℕ) (phi : ℝ) :
+    okOf (Gen.Go.phi2z_loop eccent ts eccnth n phi) = Js.phi2zLoop eccent ts eccnth n phi := by
+  induction n generalizing phi with
+  | zero => rfl
+  | succ n ih =>
+    unfold Gen.Go.phi2z_loop Js.phi2zLoop Js.HALF_PI
+    rnum
+    rw [okOf_ite, ih]
+
+/-- `phi2z`: same iteration, same 16 rounds, same 1e-10 stop; the Go error is where JS returns -9999 -/
+theorem go_phi2z_eq_js (eccent ts : ℝ) : okOf (Gen.Go.phi2z eccent ts) = Js.phi2z eccent ts := by
+  unfold Gen.Go.phi2z Js.phi2z Js.HALF_PI
+  exact go_phi2z_loop_eq_js _ _ _ _ _
+
+theorem go_imlfn_loop_eq_js (ml e0 e1 e2 e3 : ℝ) (n : ℕ) (phi : ℝ) :
+    okOf (Gen.Go.imlfn_loop ml e0 e1 e2 e3 n phi) = Js.imlfnLoop ml e0 e1 e2 e3 n phi := by
+  induction n generalizing phi with
+  | zero => rfl
+  | succ n ih =>
+    unfold Gen.Go.imlfn_loop Js.imlfnLoop
+    rnum
+    rw [okOf_ite, ih]
+
+/-- `imlfn`: same Newton iteration, 15 rounds; the Go error is where JS returns NaN -/
+theorem go_imlfn_eq_js (ml e0 e1 e2 e3 : ℝ) : okOf (Gen.Go.imlfn ml e0 e1 e2 e3) = Js.imlfn ml e0 e1 e2 e3 := by
+  unfold Gen.Go.imlfn Js.imlfn
+  exact go_imlfn_loop_eq_js _ _ _ _ _ _ _
+
+/-- the package constants (folded by go/types) equal the JS `var`s -/
+theorem go_consts_eq_js :
+    (Gen.Go.c_deg2rad : ℝ) = Js.D2R ∧ (Gen.Go.c_r2d : ℝ) = Js.R2D ∧ (Gen.Go.c_epsln : ℝ) = Js.EPSLN ∧
+    (Gen.Go.c_halfPi : ℝ) = Js.HALF_PI ∧ (Gen.Go.c_fortPi : ℝ) = Js.FORTPI ∧ (Gen.Go.c_twoPi : ℝ) = Js.TWO_PI ∧
+    (Gen.Go.c_sPi : ℝ) = Js.SPI ∧ (Gen.Go.c_sixth : ℝ) = Js.SIXTH ∧ (Gen.Go.c_ra4 : ℝ) = Js.RA4 ∧
+    (Gen.Go.c_ra6 : ℝ) = Js.RA6 ∧ (Gen.Go.c_secToRad : ℝ) = Js.SEC_TO_RAD := by
+  unfold Gen.Go.c_deg2rad Gen.Go.c_r2d Gen.Go.c_epsln Gen.Go.c_halfPi Gen.Go.c_fortPi Gen.Go.c_twoPi Gen.Go.c_sPi
+    Gen.Go.c_sixth Gen.Go.c_ra4 Gen.Go.c_ra6 Gen.Go.c_secToRad Js.D2R Js.R2D Js.EPSLN Js.HALF_PI Js.FORTPI Js.TWO_PI
+    Js.SPI Js.SIXTH Js.RA4 Js.RA6 Js.SEC_TO_RAD
+  rnum
+  norm_num
+
+/-! ## (B) Snyder's closed forms -/
+set_option maxRecDepth 4000
+
+/-- Snyder (3-21) is the port's `mlfn ∘ (e0fn..e3fn)`: the series coefficients are the same polynomials -/
+theorem snyder_mdist_eq (es phi : ℝ) :
+    Spec.Ref.mDist es phi = Gen.Go.mlfn (Gen.Go.e0fn es) (Gen.Go.e1fn es) (Gen.Go.e2fn es) (Gen.Go.e3fn es) phi := by
+  unfold Spec.Ref.mDist Gen.Go.mlfn Gen.Go.e0fn Gen.Go.e1fn Gen.Go.e2fn Gen.Go.e3fn
+  rnum
+  norm_num
+  ring
+
+/-- Snyder (14-15) is `msfnz` -/
+theorem snyder_m_eq (e phi : ℝ) : Spec.Ref.m e phi = Gen.Go.msfnz e (Real.sin phi) (Real.cos phi) := by
+  unfold Spec.Ref.m Gen.Go.msfnz
+  rnum
+  congr 2
+  ring
+
+/-- Snyder (15-9) is `tsfnz` -/
+theorem snyder_t_eq (e phi : ℝ) : Spec.Ref.t e phi = Gen.Go.tsfnz e phi (Real.sin phi) := by
+  unfold Spec.Ref.t Gen.Go.tsfnz
+  rnum
+  congr 2
+  · norm_num; ring
+  · norm_num; ring
+
+/-- Snyder (3-12) is `qsfnz` (both the ellipsoidal and the spherical branch) -/
+theorem snyder_q_eq (e phi : ℝ) : Spec.Ref.q e phi = Gen.Go.qsfnz e (Real.sin phi) := by
+  unfold Spec.Ref.q Gen.Go.qsfnz
+  rnum
+  norm_num
+  split_ifs with h
+  · have h1 : e * e * (Real.sin phi * Real.sin phi) = e * Real.sin phi * (e * Real.sin phi) := by ring
+    have h2 : e⁻¹ * (1 / 2) = 1 / 2 / e := by ring
+    rw [h1, h2]
+  · rfl
+
+theorem pi_le_spi : Real.pi ≤ 3.14159265359 := by
+  have := Real.pi_lt_d20; norm_num at this ⊢; linarith
+
+/-- inside (−π, π] the port's `adjust_lon` and the reference's `wrap` are both the identity -/
+theorem adjust_lon_eq_wrap (d : ℝ) (h : |d| ≤ Real.pi) : Gen.Go.adjust_lon d = Spec.Ref.wrap d := by
+  have h1 := abs_le.mp h
+  unfold Gen.Go.adjust_lon Spec.Ref.wrap
+  rnum
+  have hs : |d| ≤ 3.14159265359 := le_trans h pi_le_spi
+  have a1 : ¬ (Real.pi < d) := not_lt.mpr h1.2
+  have a2 : ¬ (d < -Real.pi) := not_lt.mpr h1.1
+  simp [hs, a1, a2]
+
+/-- the y of the ellipsoidal Mercator: −ln t (port) = ln[tan(π/4+φ/2)·((1−e sin φ)/(1+e sin φ))^(e/2)] (Snyder 7-7) -/
+theorem snyder_merc_y (e lat : ℝ) :
+    -Real.log (Gen.Go.tsfnz e lat (Real.sin lat)) =
+      Real.log (Real.tan (Real.pi / 4 + lat / 2) * ((1 - e * Real.sin lat) / (1 + e * Real.sin lat)) ^ (e / 2)) := by
+  unfold Gen.Go.tsfnz
+  rnum
+  have h : Real.pi / 4 + lat / 2 = Real.pi / 2 - 0.5 * (Real.pi / 2 - lat) := by norm_num; ring
+  have h2 : (0.5 : ℝ) * e = e / 2 := by norm_num; ring
+  rw [h, Real.tan_pi_div_two_sub, ← Real.log_inv, inv_div, h2, div_eq_inv_mul, mul_comm]
+
+/-- **Snyder, Mercator (7-6, 7-7)**: on an ellipsoid, for a latitude the port accepts and a
+longitude within π of the central meridian, the port's forward closure returns exactly Snyder's
+closed form. -/
+theorem snyder_merc_eq (s : Model.SR ℝ) (c : Model.Consts ℝ) (lon lat : ℝ)
+    (hs : s.sphere = false)
+    (h90 : ¬ (90 < lat * 57.29577951308232088)) (hm90 : ¬ (lat * 57.29577951308232088 < -90))
+    (hp : ¬ (|(|lat| - Real.pi / 2)| ≤ 1.0e-10))
+    (hd : |lon - Model.gnum s.long0| ≤ Real.pi) :
+    Model.mercFwd s c lon lat =
+      .ok (Spec.Ref.merc (Model.aS s) s.e c.k0 (Model.gnum s.long0) (Model.gnum s.x0) (Model.gnum s.y0) lon lat) := by
+  unfold Model.mercFwd Spec.Ref.merc Model.halfPi Gen.Go.c_r2d Gen.Go.c_epsln Gen.Go.c_halfPi
+  rnum
+  rw [adjust_lon_eq_wrap _ hd]
+  have hy := snyder_merc_y s.e lat
+  have hp' : ¬ (|(|lat| - Real.pi / 2)| ≤ 1e-10) := by norm_num at hp ⊢; exact hp
+  simp only [hs, h90, hm90, hp', decide_false, Bool.or_false, Bool.false_eq_true, if_false, ite_false]
+  congr 2
+  rw [← hy]; ring
+
+/-- **Snyder, equidistant conic (16-1 … 16-4, 3-21)**: constructor + forward closure of the port on an
+ellipsoid return Snyder's closed form with `M` from (3-21). -/
+theorem snyder_eqdc_eq (s : Model.SR ℝ) (lon lat : ℝ)
+    (hs : s.sphere = false)
+    (h12 : ¬ (|Model.gnum s.lat1 + Model.gnum s.lat2| < 1.0e-10))
+    (hl2 : Model.gNaN s.lat2 = false)
+    (hba : 0 ≤ 1 - (Model.gnum s.b / Model.gnum s.a) ^ 2)
+    (hd : |lon - Model.gnum s.long0| ≤ Real.pi) :
+    (Model.eqdcInit s >>= fun sc => Model.eqdcFwd sc.1 sc.2 lon lat) =
+      .ok (Spec.Ref.eqdc false (Model.aS s) (Real.sqrt (1 - (Model.gnum s.b / Model.gnum s.a) ^ 2))
+            (Model.gnum s.lat0) (Model.gnum s.lat1) (Model.gnum s.lat2) (Model.gnum s.long0)
+            (Model.gnum s.x0) (Model.gnum s.y0) lon lat) := by
+  have hE : Real.sqrt (1 - (Model.gnum s.b / Model.gnum s.a) ^ 2) * Real.sqrt (1 - (Model.gnum s.b / Model.gnum s.a) ^ 2)
+      = 1 - (Model.gnum s.b / Model.gnum s.a) ^ 2 := Real.mul_self_sqrt hba
+  have hpow : (Model.gnum s.b / Model.gnum s.a) ^ (2 : ℝ) = (Model.gnum s.b / Model.gnum s.a) ^ 2 := Real.rpow_two _
+  have h12' : ¬ (|Model.gnum s.lat1 + Model.gnum s.lat2| < 1e-10) := by norm_num at h12 ⊢; exact h12
+  unfold Model.eqdcInit Model.eqdcFwd Spec.Ref.eqdc Gen.Go.c_epsln
+  rnum
+  simp only [hs, hl2, h12', decide_false, Bool.false_eq_true, if_false, ite_false, bind, Except.bind, Model.aS,
+    Model.Consts.nanC, hpow, hE, snyder_mdist_eq, snyder_m_eq, adjust_lon_eq_wrap _ hd]
+  congr 1
+  refine Prod.ext ?_ ?_ <;> simp only [] <;> ring
+
+/-- **Snyder, Albers equal-area conic (14-1 … 14-15, 3-12)**: constructor + forward closure of the
+port return Snyder's closed form. -/
+theorem snyder_aea_eq (s : Model.SR ℝ) (lon lat : ℝ)
+    (h12 : ¬ (|Model.gnum s.lat1 + Model.gnum s.lat2| < 1.0e-10))
+    (hd : |lon - Model.gnum s.long0| ≤ Real.pi) :
+    (Model.aeaInit s >>= fun sc => Model.aeaFwd sc.1 sc.2 lon lat) =
+      .ok (Spec.Ref.aea (Model.aS s) (Real.sqrt (1 - (Model.gnum s.b / Model.gnum s.a) ^ 2))
+            (Model.gnum s.lat0) (Model.gnum s.lat1) (Model.gnum s.lat2) (Model.gnum s.long0)
+            (Model.gnum s.x0) (Model.gnum s.y0) lon lat) := by
+  have hpow : (Model.gnum s.b / Model.gnum s.a) ^ (2 : ℝ) = (Model.gnum s.b / Model.gnum s.a) ^ 2 := Real.rpow_two _
+  have h12' : ¬ (|Model.gnum s.lat1 + Model.gnum s.lat2| < 1e-10) := by norm_num at h12 ⊢; exact h12
+  unfold Model.aeaInit Model.aeaFwd Spec.Ref.aea Gen.Go.c_epsln
+  rnum
+  simp only [h12', decide_false, Bool.false_eq_true, if_false, ite_false, bind, Except.bind, Model.aS,
+    Model.Consts.nanC, hpow, snyder_q_eq, snyder_m_eq, adjust_lon_eq_wrap _ hd]
+
+/-- **Snyder, Lambert conformal conic (15-1 … 15-10)**: constructor + forward closure of the port
+return Snyder's closed form, away from the poles. -/
+theorem snyder_lcc_eq (s : Model.SR ℝ) (lon lat : ℝ)
+    (hl2 : Model.gNaN s.lat2 = false) (hk0 : Model.gNaN s.k0 = false)
+    (hx0 : Model.gNaN s.x0 = false) (hy0 : Model.gNaN s.y0 = false)
+    (h12 : ¬ (|Model.gnum s.lat1 + Model.gnum s.lat2| < 1.0e-10))
+    (hsing : ¬ (|2 * |lat| - Real.pi| ≤ 1.0e-10))
+    (hcon : 1.0e-10 < |(|lat| - Real.pi / 2)|)
+    (hd : |lon - Model.gnum s.long0| ≤ Real.pi) :
+    (Model.lccInit s >>= fun sc => Model.lccFwd sc.1 sc.2 lon lat) =
+      .ok (Spec.Ref.lcc (Model.aS s) (Real.sqrt (1 - Model.gnum s.b / Model.gnum s.a * (Model.gnum s.b / Model.gnum s.a)))
+            (Model.gnum s.lat0) (Model.gnum s.lat1) (Model.gnum s.lat2) (Model.gnum s.long0) (Model.gnum s.k0)
+            (Model.gnum s.x0) (Model.gnum s.y0) lon lat) := by
+  have h12' : ¬ (|Model.gnum s.lat1 + Model.gnum s.lat2| < 1e-10) := by norm_num at h12 ⊢; exact h12
+  have hsing' : ¬ (|2 * |lat| - Real.pi| ≤ 1e-10) := by norm_num at hsing ⊢; exact hsing
+  have hcon' : (1e-10 : ℝ) < |(|lat| - Real.pi / 2)| := by norm_num at hcon ⊢; exact hcon
+  unfold Model.lccInit Model.lccFwd Spec.Ref.lcc Gen.Go.c_epsln Model.halfPi Gen.Go.c_halfPi
+  rnum
+  simp only [hl2, hk0, hx0, hy0, h12', hsing', hcon', decide_false, decide_true, Bool.false_eq_true, if_false, if_true,
+    ite_false, ite_true, bind, Except.bind, Model.aS, Model.Consts.nanC, snyder_t_eq, snyder_m_eq,
+    adjust_lon_eq_wrap _ hd]
+
+/-! ## projection level: the Go closures against the proj4js methods
+
+`o` is the proj4js object after `init`, `s`/`c` the Go `*SR` after the constructor and the constants
+its closures captured; the hypotheses say that they hold the same numbers (that they do is what the
+correspondence run checks on every case; here the *formulas* are compared, for all positions). -/
+
+/-- the pair a Go closure returns, read off a proj4js point -/
+def xyOf (r : Except String (Js.P ℝ)) : Option (ℝ × ℝ) := match r with | .ok p => some (p.x, p.y) | .error _ => none
+
+/-- equidistant conic forward: same formula, all (λ, φ) -/
+theorem go_eqdc_fwd_eq_js (s : Model.SR ℝ) (c : Model.Consts ℝ) (o : Js.Obj ℝ) (lon lat : ℝ) (z : Option ℝ)
+    (ha : Js.num o.a = Model.gnum s.a) (hx : Js.num o.x0 = Model.gnum s.x0) (hy : Js.num o.y0 = Model.gnum s.y0)
+    (hl : Js.num o.long0 = Model.gnum s.long0) (hsph : o.sphere = s.sphere)
+    (h0 : o.e0 = c.e0) (h1 : o.e1 = c.e1) (h2 : o.e2 = c.e2) (h3 : o.e3s = c.e3)
+    (hg : o.g = c.g) (hns : o.ns = c.ns) (hrh : o.rh = c.rh) :
+    okOf (Model.eqdcFwd s c lon lat) = xyOf (Js.eqdcForward o ⟨lon, lat, z⟩) := by
+  unfold Model.eqdcFwd Js.eqdcForward Model.aS Js.aO xyOf okOf
+  simp only [ha, hx, hy, hl, hsph, h0, h1, h2, h3, hg, hns, hrh, go_mlfn_eq_js, go_adjust_lon_eq_js]
+
+/-- Albers forward: same formula, all (λ, φ) -/
+theorem go_aea_fwd_eq_js (s : Model.SR ℝ) (c : Model.Consts ℝ) (o : Js.Obj ℝ) (lon lat : ℝ) (z : Option ℝ)
+    (ha : Js.num o.a = Model.gnum s.a) (hx : Js.num o.x0 = Model.gnum s.x0) (hy : Js.num o.y0 = Model.gnum s.y0)
+    (hl : Js.num o.long0 = Model.gnum s.long0)
+    (he : o.e3 = c.e) (hc : o.c = c.c) (hns : o.ns0 = c.ns) (hrh : o.rh = c.rh) :
+    okOf (Model.aeaFwd s c lon lat) = xyOf (Js.aeaForward o ⟨lon, lat, z⟩) := by
+  unfold Model.aeaFwd Js.aeaForward Model.aS Js.aO xyOf okOf
+  simp only [ha, hx, hy, hl, he, hc, hns, hrh, go_qsfnz_eq_js, go_adjust_lon_eq_js]
+
+/-- transverse Mercator forward, ellipsoidal branch: same series, all (λ, φ) -/
+theorem go_tmerc_fwd_eq_js (s : Model.SR ℝ) (c : Model.Consts ℝ) (o : Js.Obj ℝ) (lon lat : ℝ) (z : Option ℝ)
+    (hs : s.sphere = false) (hso : o.sphere = false)
+    (ha : Js.num o.a = Model.gnum s.a) (hx : Js.num o.x0 = Model.gnum s.x0) (hy : Js.num o.y0 = Model.gnum s.y0)
+    (hl : Js.num o.long0 = Model.gnum s.long0) (hk : Js.num o.k0 = Model.gnum s.k0)
+    (hes : o.es = s.es) (hep : o.ep2 = s.ep2)
+    (h0 : o.e0 = c.e0) (h1 : o.e1 = c.e1) (h2 : o.e2 = c.e2) (h3 : o.e3s = c.e3) (hml : o.ml0 = c.ml0) :
+    okOf (Model.tmercFwd s c lon lat) = xyOf (Js.tmercForward o ⟨lon, lat, z⟩) := by
+  unfold Model.tmercFwd Js.tmercForward Model.aS Js.aO xyOf okOf
+  simp only [hs, hso, ha, hx, hy, hl, hk, hes, hep, h0, h1, h2, h3, hml, go_mlfn_eq_js, go_adjust_lon_eq_js,
+    Bool.false_eq_true, if_false, ite_false]
+
+/-- Mercator forward: same formula wherever the port does not reject the latitude (proj4js's own
+range test `lat*R2D > 90 && lat*R2D < -90 && …` can never hold) -/
+theorem go_merc_fwd_eq_js (s : Model.SR ℝ) (c : Model.Consts ℝ) (o : Js.Obj ℝ) (lon lat : ℝ) (z : Option ℝ)
+    (h90 : ¬ (90 < lat * 57.29577951308232088)) (hm90 : ¬ (lat * 57.29577951308232088 < -90))
+    (ha : Js.num o.a = Model.gnum s.a) (hx : Js.num o.x0 = Model.gnum s.x0) (hy : Js.num o.y0 = Model.gnum s.y0)
+    (hl : Js.num o.long0 = Model.gnum s.long0) (hk : Js.num o.k0 = c.k0) (he : o.e = s.e) (hsph : o.sphere = s.sphere) :
+    okOf (Model.mercFwd s c lon lat) = xyOf (Js.mercForward o ⟨lon, lat, z⟩) := by
+  have hc := go_consts_eq_js
+  unfold Model.mercFwd Js.mercForward Model.aS Js.aO xyOf okOf Model.halfPi
+  simp only [hc.1, hc.2.1, hc.2.2.1, hc.2.2.2.1, hc.2.2.2.2.1, ha, hx, hy, hl, hk, he, hsph, go_tsfnz_eq_js, go_adjust_lon_eq_js]
+  unfold Js.R2D
+  rnum
+  simp only [h90, hm90, decide_false, Bool.or_false, Bool.false_eq_true, Bool.false_and, Bool.and_false, if_false, ite_false]
+  split_ifs <;> rfl
+
+/-! ## the known finding, proved on the model -/
+
+/-- on a sphere the port's transverse Mercator forward does not depend on the false origin at all
+(it is not added; the same holds for `lib/projections/tmerc.js`), so with `x_0 ≠ 0` it cannot equal
+the reference, which adds it: clause (B) fails there by exactly (x_0, y_0). -/
+theorem tmerc_sphere_ignores_false_origin (s : Model.SR ℝ) (c : Model.Consts ℝ) (x0 y0 : Option ℝ) (lon lat : ℝ)
+    (hs : s.sphere = true) :
+    Model.tmercFwd { s with x0 := x0, y0 := y0 } c lon lat = Model.tmercFwd s c lon lat := by
+  unfold Model.tmercFwd Model.aS
+  simp only [hs, if_true, ite_true]
+
+/-- non-vacuity of the hypotheses of `snyder_merc_eq`: the equator on the central meridian -/
+example : ¬ (90 < (0 : ℝ) * 57.29577951308232088) ∧ ¬ ((0 : ℝ) * 57.29577951308232088 < -90) ∧
+    ¬ (|(|(0 : ℝ)| - Real.pi / 2)| ≤ 1.0e-10) ∧ |(0 : ℝ) - 0| ≤ Real.pi := by
+  have hp := Real.pi_gt_three
+  refine ⟨by norm_num, by norm_num, ?_, by simp [Real.pi_pos.le]⟩
+  rw [abs_zero, zero_sub, abs_neg, abs_of_pos (by linarith)]
+  norm_num; linarith
 
 end GeomV.C09
